@@ -3,38 +3,46 @@
 (* in global sequence order, must be a behaviour of AsyncPipeData; all C10 invariants after every event.   *)
 EXTENDS AsyncPipeData, Json, IOUtils
 Log == ndJsonDeserialize(IOEnv.TRACE)
-VARIABLES l
+\* The unit of contiguity is what the USER appended with one call: append(data, n), or everything appended between appendLock() and
+\* appendUnlock(). The driver records "ucall"(p, n) before and "uret"(p) after it; the pipe's own entry hook ("enter") may be passed
+\* several times for one user call (pieces), but from the first piece to the last no other producer may enter, and the pieces add up.
+VARIABLES l, incall, uleft, owner
 ASSUME TLCSet(42, 0)
-tvars == <<dvars, l>>
+tvars == <<dvars, l, incall, uleft, owner>>
+uvars == <<incall, uleft, owner>>
 Ev == Log[l]
 IsEv(e) == l <= Len(Log) /\ Log[l].e = e /\ l' = l + 1
-Skip(e) == IsEv(e) /\ UNCHANGED dvars
+Skip(e) == IsEv(e) /\ UNCHANGED dvars /\ UNCHANGED uvars
 ResetData ==
   /\ cur' = NoCur /\ full' = <<>> /\ freeN' = MinB /\ buffNum' = MinB /\ stop' = FALSE /\ inHand' = 0 /\ handLo' = 0 /\ hold' = FALSE
   /\ inCb' = 0 /\ appender' = 0 /\ remain' = 0 /\ pend' = <<>> /\ off' = [p \in Producers |-> 0]
   /\ entered' = 0 /\ copied' = 0 /\ delivered' = 0 /\ doneBytes' = 0 /\ atCleanup' = 0 /\ cbSize' = 0
-TInit == DInit /\ l = 1
+ResetU == incall' = {} /\ uleft' = [p \in Producers |-> 0] /\ owner' = 0
+TInit == DInit /\ l = 1 /\ incall = {} /\ uleft = [p \in Producers |-> 0] /\ owner = 0
 TNext ==
-  \/ IsEv("Reset") /\ ResetData
-  \/ IsEv("begin") /\ Ev.size = Size /\ Ev.min = MinB /\ Ev.max = MaxB /\ ResetData      \* initialize(): MinB free buffers
-  \/ IsEv("enter") /\ DEnter(Ev.p, Ev.len)
-  \/ IsEv("grow") /\ DGrow(Ev.num)
-  \/ IsEv("take_free") /\ DTakeFree(Ev.free)
-  \/ IsEv("chunk") /\ DChunk(Ev.w, Ev.cur)
-  \/ IsEv("push_full") /\ DPushFull(Ev.n, Ev.full)
-  \/ IsEv("exit") /\ DExit(Ev.p, Ev.len)
-  \/ IsEv("trylock") /\ DTryLock(Ev.cur)
-  \/ IsEv("pop") /\ DPop(Ev.n, Ev.rest)
-  \/ IsEv("cb_begin") /\ DCbBegin(Ev.n, Ev.runs)
-  \/ IsEv("cb_end") /\ DCbEnd
-  \/ IsEv("shrink") /\ DShrink(Ev.num)
-  \/ IsEv("recycle") /\ DRecycle(Ev.free)
-  \/ IsEv("cleanup_begin") /\ DCleanupBegin
-  \/ IsEv("stop") /\ DStop
-  \/ IsEv("joined") /\ DJoined
+  \/ IsEv("Reset") /\ ResetData /\ ResetU
+  \/ IsEv("begin") /\ Ev.size = Size /\ Ev.min = MinB /\ Ev.max = MaxB /\ ResetData /\ ResetU     \* initialize(): MinB free buffers
+  \/ IsEv("ucall") /\ Ev.p \notin incall /\ incall' = incall \cup {Ev.p} /\ uleft' = [uleft EXCEPT ![Ev.p] = Ev.len] /\ UNCHANGED owner /\ UNCHANGED dvars
+  \/ IsEv("uret") /\ Ev.p \in incall /\ uleft[Ev.p] = 0 /\ incall' = incall \ {Ev.p} /\ UNCHANGED <<uleft, owner>> /\ UNCHANGED dvars
+  \/ IsEv("enter") /\ Ev.p \in incall /\ Ev.len <= uleft[Ev.p] /\ owner \in {0, Ev.p} /\ owner' = Ev.p
+                   /\ uleft' = [uleft EXCEPT ![Ev.p] = @ - Ev.len] /\ UNCHANGED incall /\ DEnter(Ev.p, Ev.len)
+  \/ IsEv("grow") /\ DGrow(Ev.num) /\ UNCHANGED uvars
+  \/ IsEv("take_free") /\ DTakeFree(Ev.free) /\ UNCHANGED uvars
+  \/ IsEv("chunk") /\ DChunk(Ev.w, Ev.cur) /\ UNCHANGED uvars
+  \/ IsEv("push_full") /\ DPushFull(Ev.n, Ev.full) /\ UNCHANGED uvars
+  \/ IsEv("exit") /\ DExit(Ev.p, Ev.len) /\ owner' = (IF uleft[Ev.p] = 0 THEN 0 ELSE owner) /\ UNCHANGED <<incall, uleft>>
+  \/ IsEv("trylock") /\ DTryLock(Ev.cur) /\ UNCHANGED uvars
+  \/ IsEv("pop") /\ DPop(Ev.n, Ev.rest) /\ UNCHANGED uvars
+  \/ IsEv("cb_begin") /\ DCbBegin(Ev.n, Ev.runs) /\ UNCHANGED uvars
+  \/ IsEv("cb_end") /\ DCbEnd /\ UNCHANGED uvars
+  \/ IsEv("shrink") /\ DShrink(Ev.num) /\ UNCHANGED uvars
+  \/ IsEv("recycle") /\ DRecycle(Ev.free) /\ UNCHANGED uvars
+  \/ IsEv("cleanup_begin") /\ DCleanupBegin /\ UNCHANGED uvars
+  \/ IsEv("stop") /\ DStop /\ UNCHANGED uvars
+  \/ IsEv("joined") /\ DJoined /\ UNCHANGED uvars
   \* cleanup() returned: everything appended before it began has been delivered, nothing is left in the pipe
   \/ IsEv("cleanup_ret") /\ delivered >= atCleanup /\ delivered = entered /\ pend = <<>> /\ full = <<>> /\ ~cur.has /\ ~hold /\ inCb = 0
-                         /\ UNCHANGED dvars
+                         /\ incall = {} /\ UNCHANGED dvars /\ UNCHANGED uvars
   \/ Skip("end")
 TSpec == TInit /\ [][TNext]_tvars
 Progress == TLCSet(42, IF l > TLCGet(42) THEN l ELSE TLCGet(42))
